@@ -25,7 +25,7 @@ def registry():
     R.define('unit(n)', 'shl(1, 128 - 8 * n, 128)')
     R.define('outside(t, prefix_len, n)', 't < prefix_len or t >= prefix_len + n')
     for name, big in (('increment_be', 'True'), ('increment_le', 'False')):
-        R.fn(name, regions={'pCounter': 'u8[counter_len]'}, modifies=['pCounter'], cost=0.7,
+        R.fn(name, regions={'pCounter': 'u8[counter_len]'}, modifies=['pCounter'], cost=2,
              requires={'len': '1 <= counter_len and counter_len <= 16', 'amount': 'amount <= 255'},
              ensures={'spec_value': 'ctrval(pCounter, counter_len, %s) == (old(ctrval(pCounter, counter_len, %s)) + amount) %% pow2(8 * counter_len, 128)' % (big, big),
                       'aligned': 'aligned(pCounter, counter_len, %s) == u128(old(aligned(pCounter, counter_len, %s)) + amount * unit(counter_len))' % (big, big)},
@@ -37,7 +37,8 @@ def registry():
     # complete case split: block_len in {8, 16} (every cipher's BLOCK_SIZE), prefix_len in [0, block_len)
     cfgs_ccb = [{'name': '%s%d.p%d' % (e, bl, p), 'funcptr': {'increment': 'increment_' + e}, 'set': {'block_len': bl, 'prefix_len': p}}
                 for e in ('be', 'le') for bl in (16, 8) for p in range(bl)]
-    R.fn('create_counter_blocks', regions={'counter_block0': 'u8[block_len]'}, allocates=True, cost=1.5,
+    R.fn('create_counter_blocks', regions={'counter_block0': 'u8[block_len]'}, allocates=True, cost=3,
+         quick=['be16.p3', 'le16.p0', 'be8.p5', 'le8.p2'],
          alloc_result='u8[block_len * 8]', configs=cfgs_ccb, escapes=['result'],
          logical={'big': 'increment == increment_be'},
          requires={'geometry': '1 <= counter_len and counter_len <= 16 and prefix_len + counter_len <= block_len',
@@ -71,7 +72,7 @@ def registry():
              'all(aligned(field(s, j), s.counter_len, big(s)) == u128(aligned(field(s, 0), s.counter_len, big(s)) + j * unit(s.counter_len)) '
              'for j in range(8))')
 
-    R.fn('update_keystream', regions=SHAPE, configs=cfgs_state, cost=2.5,
+    R.fn('update_keystream', regions=SHAPE, configs=cfgs_state, cost=12, quick=['bl16.p3', 'bl8.p0'],
          modifies=['ctr_state.counter_blocks', 'ctr_state.keystream', 'ctr_state.used_ks'],
          requires={'geometry': 'geometry(ctr_state)'},
          ensures={'template': 'all(outside(k % ctr_state.cipher.block_len, prefix(ctr_state), ctr_state.counter_len) ==> '
@@ -97,11 +98,13 @@ def registry():
     R.define('limit(s)', 's.length_max_hi * 2**64 + s.length_max_lo')
     R.define('position(s)', 's.length_hi * 2**64 + s.length_lo')
     cfgs_start = [{'name': 'bl%d.p%d' % (bl, p), 'set': {'cipher.block_len': bl, 'prefix_len': p}} for bl, p in GEOM]
-    cfgs_start += [{'name': 'bl%d.prefix_too_long' % bl, 'set': {'cipher.block_len': bl}, 'assume': ['prefix_len >= %d' % bl]} for bl in (16, 8)]
-    cfgs_start += [{'name': 'null_' + n, 'null': [n], 'set': {'cipher.block_len': 16}} for n in ('counter_block0', 'pResult')]
-    cfgs_start += [{'name': 'null_cipher', 'null': ['cipher']}]
-    R.fn('CTR_start_operation', allocates=True, configs=cfgs_start, escapes=['pResult[0]'], cost=4,
+    cfgs_start += [{'name': 'bl%d.prefix_too_long' % bl, 'set': {'cipher.block_len': bl}, 'assume': ['prefix_len >= %d' % bl], 'cost': 2} for bl in (16, 8)]
+    cfgs_start += [{'name': 'null_' + n, 'null': [n], 'set': {'cipher.block_len': 16}, 'cost': 1} for n in ('counter_block0', 'pResult')]
+    cfgs_start += [{'name': 'null_cipher', 'null': ['cipher'], 'cost': 1}]
+    R.fn('CTR_start_operation', allocates=True, configs=cfgs_start, escapes=['pResult[0]'], cost=10,
+         quick=['bl16.p3', 'bl8.p4', 'bl16.prefix_too_long', 'bl8.prefix_too_long', 'null_counter_block0', 'null_pResult', 'null_cipher'],
          regions={'cipher': 'struct', 'cipher.encrypt': 'fn:block_encrypt', 'counter_block0': 'u8[counter_block0_len]', 'pResult': 'cell'},
+         modifies=['pResult'],
          # the length test `block_len < prefix_len + counter_len` is computed in size_t and wraps for prefix_len >= 2**64 - counter_len
          # (see NOTES.md, finding F-CTR-1); every caller passes len(prefix) <= block_len
          requires={'prefix_small': 'prefix_len <= 4294967295'},
@@ -135,14 +138,15 @@ def registry():
             if al == 'inplace':
                 cfg['alias'] = [('in', 'out')]
             cfgs_enc.append(cfg)
-    cfgs_enc += [{'name': 'null_' + n, 'null': [n], 'set': {'ctr_state.cipher.block_len': 16}} for n in ('in', 'out')]
-    cfgs_enc += [{'name': 'null_state', 'null': ['ctr_state']}]
+    cfgs_enc += [{'name': 'null_' + n, 'null': [n], 'set': {'ctr_state.cipher.block_len': 16}, 'cost': 2} for n in ('in', 'out')]
+    cfgs_enc += [{'name': 'null_state', 'null': ['ctr_state'], 'cost': 1}]
     R.define('ks_size(s)', '8 * s.cipher.block_len')
     R.define('within_limit(s)', 'limit(s) == 0 or position(s) <= limit(s)')
     R.define('buffer_ok(s)', 'geometry(s) and s.used_ks <= ks_size(s)')
     NULLS = 'null(ctr_state) or null(in) or null(out)'
     R.define('consumed()', 'u64(old(data_len) - data_len)')     # bytes processed so far (data_len only decreases)
-    R.fn('CTR_encrypt', regions=ENC_SHAPE, configs=cfgs_enc, cost=100,
+    R.fn('CTR_encrypt', regions=ENC_SHAPE, configs=cfgs_enc, cost=200,
+         quick=['bl16.inplace', 'null_in', 'null_out', 'null_state'],
          modifies=['out', 'ctr_state.counter_blocks', 'ctr_state.keystream', 'ctr_state.used_ks', 'ctr_state.length_lo', 'ctr_state.length_hi'],
          requires={'valid': 'null(ctr_state) or buffer_ok(ctr_state)', 'within_limit': 'null(ctr_state) or within_limit(ctr_state)'},
          ensures={
